@@ -12,6 +12,7 @@ pub fn cfg_by_name(name: &str) -> GenCfg {
         "full" => GenCfg::full(),
         "shadow" => GenCfg { shadowing: true, ..GenCfg::strict() },
         "stress" => GenCfg { shadowing: true, scope_stress: true, max_decls: 12, ..GenCfg::strict() },
+        "cycles2" => GenCfg { shadowing: true, invalid_cycles: true, loose_head_cycles: true, loose_rec_as_plain: true, max_decls: 14, ..GenCfg::full() },
         "loose" => GenCfg {
             loose_ranges_as_content: true,
             loose_op_as_plain: true,
